@@ -211,6 +211,26 @@ def explore_solve(case):
     return res
 
 
+def run_exact_or_mp(prog, args):
+    """exact rational run of the instruction list; if the code uses an irrational opcode, the same program in 60-digit arithmetic
+    (results converted to rationals; the caller then compares with tolerance 1e-40)"""
+    try:
+        outs, _ = sxvm.run(prog, args, sxvm.FRACTION)
+        return outs, Fr(0)
+    except sxvm.NotRational:
+        outs, _ = sxvm.run(prog, [[float(x) for x in a] for a in args], sxvm.MPF)
+        return [[mpf_to_fraction(x) if mpmath.isfinite(x) else sxvm.POISON for x in o] for o in outs], Fr(1, 10 ** 40)
+
+
+def _differs(got, want, tol):
+    got = list(got)
+    if len(got) != len(want) or any(g is sxvm.POISON for g in got):
+        return True
+    if tol == 0:
+        return got != want
+    return any(abs(g - w) > tol * (1 + abs(w)) for g, w in zip(got, want))
+
+
 def explore_multirotor(case):
     seed = case["seed"]
     res = core.Result()
@@ -219,14 +239,18 @@ def explore_multirotor(case):
     prog = sxvm.compile_fn(f)
     p8 = patterns(7, seed)
     p4 = patterns(3, seed)
-    for i in range(len(p8)):
-        PX, PY, PZ = p8[i], p8[(i + 3) % len(p8)], p8[(i + 5) % len(p8)]
+    for i in range(2 * len(p8)):
+        PX, PY, PZ = p8[i % len(p8)], p8[(i + 3) % len(p8)], p8[(i + 5) % len(p8)]
         Pp = p4[i % len(p4)]
+        if i >= len(p8):
+            # heading polynomials that leave (-pi, pi] and run through several turns; far-away positions
+            Pp = [q * 4 + Fr(1, 2) for q in Pp]
+            PX = [q * 1000 for q in PX]
         for T in TS:
             for beta in BETAS:
                 res.count("evaluations")
                 res.nontrivial.add(hash((i, T, beta)))
-                outs, _ = sxvm.run(prog, [[beta * T], [T], PX, PY, PZ, Pp], sxvm.FRACTION)
+                outs, tol = run_exact_or_mp(prog, [[beta * T], [T], PX, PY, PZ, Pp])
                 x, y, z, psi, dpsi, ddpsi, v, a, j, s = outs
                 want = dict(x=[ref_curve(PX, T, beta, 0)], y=[ref_curve(PY, T, beta, 0)], z=[ref_curve(PZ, T, beta, 0)], psi=[ref_curve(Pp, T, beta, 0)],
                             psidot=[ref_curve(Pp, T, beta, 1)], psiddot=[ref_curve(Pp, T, beta, 2)])
@@ -235,12 +259,91 @@ def explore_multirotor(case):
                 got = dict(x=x, y=y, z=z, psi=psi, psidot=dpsi, psiddot=ddpsi, v=v, a=a, j=j, s=s)
                 res.outcomes.add(hash(tuple(want["v"])))
                 for nm in want:
-                    if list(got[nm]) != want[nm]:
+                    if _differs(got[nm], want[nm], tol):
                         res.fail(site="bezier_multirotor", clause="outputs_are_consistent_derivatives:" + nm, cls="-",
                                  detail=dict(T=str(T), t=str(beta * T), PX=[str(q) for q in PX], got=[str(q) for q in got[nm]], want=[str(q) for q in want[nm]]),
                                  sub="multirotor", case=case)
     res.samples.append(dict(fn="bezier_multirotor", patterns=len(p8)))
     return res
+
+
+# ---------------- object history: a Bezier object follows its current control points and duration ---------------------------------
+HOPS = ["eval", "d1", "d2", "d0", "setP", "poke", "setT"]
+
+
+def run_history(n, dim, word, seed):
+    """execute the word on one real Bezier object built from numeric data; returns list of (op, got, want) for the read operations"""
+    pats = patterns(n, seed)
+    rows = [pats[(2 + d) % len(pats)] for d in range(dim)]
+    rows2 = [pats[(len(pats) - 1 - d) % len(pats)] for d in range(dim)]
+    T = Fr(2)
+    P = ca.DM([[float(x) for x in r] for r in rows])
+    B = bz().Bezier(P, float(T))
+    cur = [list(r) for r in rows]
+    beta = Fr(1, 3)
+    out = []
+    for op in word:
+        if op in ("eval", "d0", "d1", "d2"):
+            m = {"eval": 0, "d0": 0, "d1": 1, "d2": 2}[op]
+            if m > n:
+                continue
+            C = B if op == "eval" else B.deriv(m)
+            got = np.array(ca.evalf(ca.densify(ca.SX(C.eval(float(beta * T))))), dtype=float).reshape(-1)
+            want = [float(ref_curve(cur[d], T, beta, m)) for d in range(dim)]
+            out.append((op, got, want))
+        elif op == "setP":
+            B.P = ca.DM([[float(x) for x in r] for r in rows2])
+            P = B.P
+            cur = [list(r) for r in rows2]
+        elif op == "poke":
+            # the caller refills its own control-point buffer in place (the object holds a reference to it)
+            P[0, n] = float(cur[0][n] + 5)
+            cur[0][n] = cur[0][n] + 5
+        elif op == "setT":
+            T = T * 3 / 2
+            B.T = float(T)
+    return out
+
+
+def explore_history(case):
+    n, dim, seed, tier = case["n"], case["dim"], case["seed"], case["tier"]
+    depth = 5 if tier == "thorough" else 4
+    res = core.Result()
+    seen = set()
+    for d in range(1, depth + 1):
+        for word in itertools.product(HOPS, repeat=d):
+            if word[-1] not in ("eval", "d0", "d1", "d2"):
+                continue  # only words ending in a read add an observation
+            res.count("evaluations")
+            res.count("transitions", len(word))
+            res.count("traces_validated_against_impl")
+            try:
+                with contextlib.redirect_stdout(io.StringIO()):
+                    obs = run_history(n, dim, word, seed)
+            except Exception as ex:
+                res.fail(site="Bezier", clause="operation_raises", cls="history", detail=dict(word=list(word), error="%s: %s" % (type(ex).__name__, str(ex)[:200])), sub="history", case=case)
+                continue
+            if any(o in word for o in ("setP", "poke", "setT")):
+                res.nontrivial.add(hash((n, dim, word)))
+            res.outcomes.add(hash(tuple(tuple(w) for _, _, w in obs)))
+            for op, got, want in obs[-1:]:
+                seen.add(tuple(want))
+                if got.shape != (len(want),) or not np.all(np.isfinite(got)) or max(abs(g - w) for g, w in zip(got, want)) > 1e-11 * (1 + max(abs(w) for w in want)):
+                    res.fail(site="Bezier.eval" if op == "eval" else "Bezier.deriv", clause="object_follows_current_control_points_and_duration", cls="after_" + "_".join(sorted(set(word[:-1]) & {"setP", "poke", "setT"})) or "-",
+                             detail=dict(n=n, dim=dim, word=list(word), got=got, want=want), sub="history", case=case)
+    res.count("states", len(seen))
+    res.samples.append(dict(history_n=n, dim=dim, depth=depth))
+    return res
+
+
+class _Hi:
+    chunks = 1
+
+    def cases(self, tier, seed):
+        return [dict(sub="history", n=n, dim=d, seed=seed, tier=tier) for n, d in ((1, 1), (3, 1), (3, 3), (7, 1), (2, 2))]
+
+    def run(self, case):
+        return explore_history(case)
 
 
 class _Cu:
@@ -273,5 +376,6 @@ class _Mu:
         return explore_multirotor(case)
 
 
-SUBCHECKS = {"curve": _Cu(), "solve": _So(), "multirotor": _Mu()}
-REPLAY = {"curve": lambda c: explore_curve(c).fails, "solve": lambda c: explore_solve(c).fails, "multirotor": lambda c: explore_multirotor(c).fails}
+SUBCHECKS = {"curve": _Cu(), "solve": _So(), "multirotor": _Mu(), "history": _Hi()}
+REPLAY = {"curve": lambda c: explore_curve(c).fails, "solve": lambda c: explore_solve(c).fails, "multirotor": lambda c: explore_multirotor(c).fails,
+          "history": lambda c: explore_history(c).fails}
